@@ -37,8 +37,8 @@ static const struct { const char *base; int cls; const char *rewrite; int all_ca
 
 #define LONG_USER "Login-Name_07.x~y-0123456789_ABCDEFGHIJ"
 #define LONG_KEY "S3cr3t-._~Key~42_0123456789-abcdefXYZ"
-static const char *UI_USER[] = {NULL, "u", LONG_USER};
-static const char *UI_KEY[] = {NULL, "k", LONG_KEY};
+static const char *UI_USER[] = {NULL, "u", LONG_USER, "usr3"};
+static const char *UI_KEY[] = {NULL, "k", LONG_KEY, "se:cr:et:"};     /* index 3: the key itself contains ':' (legal in user-info; the first ':' separates) */
 static const char *HOSTS[] = {"aggr.example.test", "192.0.2.7", "[2001:db8::7]"};
 static const char *HOSTS_BARE[] = {"aggr.example.test", "192.0.2.7", "2001:db8::7"};
 static const unsigned PORTS[] = {0, 1, 80, 65535};
@@ -555,7 +555,7 @@ static void split_case(const ccase *c) {
 static void self_check(void) {
 	/* the literal leak test relies on the non-credential components being free of the credential strings */
 	int u, h, a, b;
-	for (u = 1; u < 3; u++) {
+	for (u = 1; u < 4; u++) {
 		const char *cr[2];
 		int k;
 		cr[0] = UI_USER[u]; cr[1] = UI_KEY[u];
@@ -647,12 +647,13 @@ static void run(void) {
 	 * comes from the URI (every scheme spelling, with embedded credentials, every service) */
 	memset(&c, 0, sizeof c);
 	for (c.b = 0; c.b < NSCH; c.b++)
-	for (c.u = 1; c.u < 3; c.u++)
+	for (c.u = 1; c.u < 4; c.u++)
 	for (c.p = 0; c.p < 4; c.p += 2)
-	for (c.x = 2; c.x < 4; c.x++)
+	for (c.x = (c.u == 3 ? 0 : 2); c.x < 4; c.x++)
 	for (c.v = 0; c.v < NSV; c.v++) {
 		int crashed;
 		c.mask = 0; c.h = 0; c.a = 2; c.q = 0; c.f = 0;
+		if (c.u == 3 && c.x == 1) continue;              /* the key with ':' in it: embedded only, or together with one explicit credential */
 		if (!vf_case_begin("mixed:s%d:u%d:p%d:x%d:v%d", c.b, c.u, c.p, c.x, c.v)) continue;
 		compose(&c);
 		reset_seam();
